@@ -7,7 +7,7 @@ prop="$1"; mut="$2"
 d="${MUTDIR:-/root/work}/mut.$$"
 "$here/tools/scratch.sh" "$d" || exit 3
 case "$mut" in
-  sed:*) f=$(echo "$mut" | cut -d: -f2); e=$(echo "$mut" | cut -d: -f3-); sed -i "$e" "$d/$f" ;;
+  sed:*) f=$(printf "%s" "$mut" | cut -d: -f2); e=$(printf "%s" "$mut" | cut -d: -f3-); sed -i "$e" "$d/$f" ;;
   *) (cd "$d" && patch -p1 -s < "$mut") || { rm -rf "$d"; exit 3; } ;;
 esac
 tmpdiff="$d.diff"
